@@ -468,6 +468,30 @@ def commitSetOfSpend (c : ChanCommits) (spent : SetKey) : Option (CloseSub × Co
   | .rem => some (.remoteUnilateral, ⟨.rem, sets⟩)
   | .pend => if c.pend.isSome then some (.remoteUnilateral, ⟨.pend, sets⟩) else none
 
+/-! ### start-up / restart and link updates
+
+`ChainArbitrator` builds `htlcSets` from the channel's local, remote and (if one of our
+CommitSigs is unrevoked) remote-pending commitment and hands them to `NewChannelArbitrator`,
+which seeds both `activeHTLCs` and `unmergedSet`; `updateActiveHTLCs` (every `StateDefault`
+step) copies `unmergedSet` over `activeHTLCs`.  What the deadline check considers after a
+restart is therefore this explicit function of the three start-up sets, until the link
+replaces one of them (`notifyContractUpdate`). -/
+
+def startSets (loc rem : List Htlc) (pend : Option (List Htlc)) : Sets :=
+  { loc := newHtlcSet loc, rem := newHtlcSet rem,
+    pend := match pend with | some p => newHtlcSet p | none => {} }
+
+/-- the arbitrator right after `NewChannelArbitrator(cfg, htlcSets, log)` -/
+def startUp (loc rem : List Htlc) (pend : Option (List Htlc)) (fcErr : FcErr := .none) : Arb :=
+  { state := .default, active := startSets loc rem pend, fcErr := fcErr }
+
+/-- `notifyContractUpdate`: the link reports the HTLCs of one commitment anew -/
+def linkUpdate (a : Arb) (k : SetKey) (htlcs : List Htlc) : Arb :=
+  { a with active := match k with
+      | .loc => { a.active with loc := newHtlcSet htlcs }
+      | .rem => { a.active with rem := newHtlcSet htlcs }
+      | .pend => { a.active with pend := newHtlcSet htlcs } }
+
 /-- lnwallet `extractHtlcResolutions` (called by `NewLocalForceCloseSummary` /
     `NewUnilateralCloseSummary`) as far as the arbitrator depends on it: one incoming / outgoing
     HTLC resolution per HTLC of the spent commitment that has an output there, identified by the
